@@ -30,6 +30,16 @@ class Adapter(EnvAdapter):
 
     # ---- configurations -------------------------------------------------------------------
     def configs(self, tier):
+        # time-limit sweep ("for every value passed", C11): one stalling episode per value
+        from harness.envs.base import T_SWEEP_QUICK_FEW, T_SWEEP_THOROUGH_FEW
+
+        ts = T_SWEEP_QUICK_FEW if tier == "quick" else T_SWEEP_THOROUGH_FEW
+        return self._base_configs(tier) + [
+            dict(id=f"n10a2k2_t{t}_sweep", ctor=dict(num_nodes=10, num_edges=15, max_degree=4, num_agents=2, num_nodes_per_agent=2,
+                                                    time_limit=t, default=False), episodes=1, max_steps=t + 2,
+                 policies=["stall"], probe_every=0, props=["C03", "C11"]) for t in ts]
+
+    def _base_configs(self, tier):
         pols = ["solve", "crowd", "masked", "collide", "random", "mostly_masked"]
 
         def c(id, n, e, d, a, k, t, episodes, max_steps, **kw):
@@ -180,6 +190,8 @@ class Adapter(EnvAdapter):
 
     # ---- policies -------------------------------------------------------------------------
     def choose(self, policy, env, state, obs, rng, i):
+        if policy == "stall":        # every agent names the node it stands on (never an edge): nobody ever finishes
+            return np.asarray(self._view(state)[3], dtype=env.action_spec.dtype).reshape(-1)
         if policy == "solve":
             return self._solve(env, state, obs, rng)
         if policy in ("collide", "crowd"):
